@@ -290,6 +290,11 @@ func Check[C any](t *testing.T, p Prop[C]) {
 		st.Eval()
 		if err := p.Run(c, st); err != nil {
 			last = &failRec[C]{Property: p.ID, Error: err.Error(), Case: c}
+			// recorded at once: if a later case (or shrinking) wedges the process, the failure found so far is not lost
+			if b, merr := json.MarshalIndent(last, "", " "); merr == nil {
+				os.WriteFile(failPath+".tmp", b, 0o644)
+				os.Rename(failPath+".tmp", failPath)
+			}
 			rt.Fatalf("%s violated: %v", p.ID, err)
 		}
 	})
